@@ -33,7 +33,8 @@ RULE = ("ADMGs with 2-5 nodes (thorough: up to 6; half random, half mutations of
         "|Y| <= 4, random 6-node graphs with |X|, |Y| <= 3 (gap review round 5); corpus = "
         "y0.examples graphs with <= 6 nodes and the F3 witness (napkin). Every returned estimand is evaluated exactly on "
         "2-3 random positive SCMs compatible with the graph at every assignment. A case is non-trivial when ID returned "
-        "an estimand and the run used at least one of lines 4, 6, 7.")
+        "an estimand and the run used at least one of lines 4, 6, 7."
+        " A SMALL-SCOPE EXHAUSTIVE stream: every labelled ADMG on 2-3 nodes x every valid query (thorough: all 2412; quick: a fixed 1-in-4 stride), two random positive models each.")
 FORMS_NOTE = ("argument FORMS (harness/forms.py, harness/oracles/id_run.py id_slots; chosen deterministically per case, stored in the case, "
               "tagged form_*): treatments / outcomes / conditions as set / frozenset / list / tuple / dict keys / generator / iterator / "
               "map or a bare Variable for a one-element set (`Variable | set[Variable]`, normalised by _ensure_set); the "
